@@ -503,7 +503,7 @@ def run_chirpfn_case(case):
     ok = ch.shape == (case["N"],) and ch.dtype == np.complex64
     ks = case["bins"]
     return [{"ev": "chirp", "dm": rat(dmx), "N": case["N"], "dt": rat(Fraction(float(case["dt"][0])) * tsc),
-             "fc": rat(QX(case["cf"])), "fref": rat(QX(case["ref"])), "ks": ks,
+             "fc": rat(QX(case["cf"])), "fref": rat(QX(case["ref"])), "ks": ks, "xcheck": case.get("xcheck", -1),
              "vals": cfix_list(ch[ks]) if ok else [exact.cfix(0)] * len(ks), "_cost": 0.05 * len(ks),
              "_desc": "DM(%r).chirp_function(%d, %r, %r, %r, use_dask=%r) shape %r dtype %s"
                       % (case["dm"], case["N"], case["dt"], case["cf"], case["ref"], case["dask"], ch.shape, ch.dtype)}]
@@ -636,6 +636,7 @@ def run_chirpsig_case(case):
     for c, f in enumerate(common.hz(z.channel_freqs)):
         evs.append({"ev": "chirp", "dm": rat(dmx), "N": case["N"], "dt": rat(Fraction(float(z.dt.to_value(u.s)))),
                     "fc": rat(f), "fref": rat(common.hz(ref)), "ks": ks,
+                    "xcheck": case.get("xcheck", -1) if c == 0 else -1,
                     "vals": cfix_list(ch.reshape(case["N"], case["nchan"])[ks, c]) if ok else [exact.cfix(0)] * len(ks),
                     "_cost": 0.05 * len(ks),
                     "_desc": "chirp_from_signal channel %d shape %r (want %r) %s: %s" % (c, ch.shape, want, ch.dtype, describe(case))})
